@@ -33,6 +33,9 @@ func whoOf(ctx context.Context) string {
 		if w, ok := ctx.Value(ctxKey{}).(string); ok {
 			return w
 		}
+		if c := network.VerifCallOf(ctx); c != nil { // calls made by library code (protocol runners)
+			return fmt.Sprintf("c%d", c.ID)
+		}
 	}
 	return "rd"
 }
@@ -163,8 +166,9 @@ var errLinkDown = errors.New("harness: link down")
 // ---------------------------------------------------------------- recorder
 
 type hookEv struct {
-	st  network.VerifState
-	who string
+	st    network.VerifState
+	who   string
+	froms []int // requested senders of the call (from the call's context)
 }
 
 type recvItem struct {
@@ -220,7 +224,14 @@ func traceHook(core any, ctx context.Context, st network.VerifState) {
 	if st.Ev == "close" {
 		who = "close"
 	}
-	r.hooks = append(r.hooks, hookEv{st: st, who: who})
+	h := hookEv{st: st, who: who}
+	if c := network.VerifCallOf(ctx); c != nil {
+		for _, f := range c.Froms {
+			h.froms = append(h.froms, int(f))
+		}
+		sort.Ints(h.froms)
+	}
+	r.hooks = append(r.hooks, h)
 	r.mu.Unlock()
 }
 
@@ -369,12 +380,34 @@ type callInfo struct {
 	Froms []int
 }
 
-// merged turns the recorder's content into trace lines (without the reset line).
+func dedup(xs []int) []int {
+	out := []int{}
+	for i, x := range xs {
+		if i == 0 || x != xs[i-1] {
+			out = append(out, x)
+		}
+	}
+	return out
+}
+
+// merged turns the recorder's content into trace lines (without the reset line); it fills `calls`
+// with the arguments of every call that entered the router.
 func (r *recorder) merged(calls map[string]callInfo) []map[string]any {
 	r.mu.Lock()
 	defer r.mu.Unlock()
 	hooks := append([]hookEv(nil), r.hooks...)
 	sort.Slice(hooks, func(i, j int) bool { return hooks[i].st.Seq < hooks[j].st.Seq })
+	// calls named by the library hook ("c<global id>") are renumbered per run
+	ren := map[string]string{}
+	for i := range hooks {
+		w := hooks[i].who
+		if len(w) > 1 && w[0] == 'c' && strings.Trim(w[1:], "0123456789") == "" {
+			if _, ok := ren[w]; !ok {
+				ren[w] = fmt.Sprintf("c%d", len(ren)+1)
+			}
+			hooks[i].who = ren[w]
+		}
+	}
 	lines := []map[string]any{}
 	ri, ci := 0, 0
 	cancels := append([]cancelItem(nil), r.cancels...)
@@ -425,11 +458,9 @@ func (r *recorder) merged(calls map[string]callInfo) []map[string]any {
 			ev["pay"] = r.in.tok(st.Payload)
 		}
 		if strings.HasPrefix(st.Ev, "en-") {
-			if info, ok := calls[h.who]; ok {
-				ev["froms"] = info.Froms
-			} else {
-				ev["froms"] = []int{}
-			}
+			fr := dedup(h.froms)
+			ev["froms"] = fr
+			calls[h.who] = callInfo{W: h.who, Cid: cidAtoms(st.Cid), Froms: fr}
 		}
 		lines = append(lines, ev)
 		if lastOf[h.who] == st.Seq && h.who != "rd" {
